@@ -214,6 +214,21 @@ theorem non_convertible_member (pre post : List Val) (v : Val) (hv : NonConverti
     toBR ia (.arr (pre ++ v :: post)) = .error .notBinary := by
   rw [toBR_arr, toBRList_err_at pre post v _ bits hpre (non_convertible_err v hv true 1 false 0).1]
 
+/-- a SYNTHETIC decode value (calculated by a decoder, not backed by input bits) is the non-convertible class among decode
+    values: every conversion rejects it, standalone … -/
+theorem synthetic_dv_err (ia : Bool) (u : Nat) (k : Bool) (p : Int) :
+    toBR ia .dvSyn = .error .synthetic ∧ toBitsOp u k p .dvSyn = .error .synthetic ∧ toHexOp .dvSyn = .error .synthetic := by
+  simp [toBR, toBitsOp, toBinary, toHexOp, bind, Except.bind]
+
+/-- … and as a member of an array at any nesting depth (`ia` arbitrary), for every conversion function -/
+theorem synthetic_dv_member (pre post : List Val) (bits : Bits) (hpre : toBRList pre = .ok bits)
+    (ia : Bool) (u : Nat) (k : Bool) (p : Int) :
+    toBR ia (.arr (pre ++ .dvSyn :: post)) = .error .synthetic
+      ∧ toBitsOp u k p (.arr (pre ++ .dvSyn :: post)) = .error .synthetic := by
+  have hx := toBRList_err_at pre post .dvSyn _ bits hpre (synthetic_dv_err true 1 false 0).1
+  refine ⟨by rw [toBR_arr, hx], ?_⟩
+  simp [toBitsOp, toBinary_arr, hx, Except.map, bind, Except.bind]
+
 /-- `index_is_slice_number`: `b[i] = (b[i:i+1] | tonumber)` for every in-range index, any unit -/
 theorem index_is_slice_number (b : Bin) (i : Nat) (hi : i < b.length) :
     b.index i = (b.slice (some (i : Int)) (some ((i : Int) + 1))).toNumber := by
@@ -353,6 +368,7 @@ theorem toBits_wf (v : Val) (u : Nat) (k : Bool) (p : Int) (r : Bin)
       | str s => simp only [toBinary, bind, Except.bind, pure, Except.pure] at hb; split at hb <;> simp at hb; subst hb; exact newBin_wf _ _
       | arr vs => simp only [toBinary, bind, Except.bind, pure, Except.pure] at hb; split at hb <;> simp at hb; subst hb; exact newBin_wf _ _
       | null => simp [toBinary, toBR, bind, Except.bind] at hb
+      | dvSyn => simp [toBinary] at hb
       | bool x => simp [toBinary, toBR, bind, Except.bind] at hb
       | obj => simp [toBinary, toBR, bind, Except.bind] at hb
     rw [hb] at h
@@ -479,6 +495,7 @@ theorem eval_wf : ∀ (e : E), E.DvWF e → ∀ v, eval e = .ok v → Val.AllWF 
       split at h <;> simp at h
       subst h; simp [Val.AllWF]
   | .half _, _, v, h => by simp [eval] at h; subst h; simp [Val.AllWF]
+  | .dvSyn, _, v, h => by simp [eval] at h; subst h; simp [Val.AllWF]
   | .sub k e, hd, v, h => by
     simp only [eval] at h
     split at h <;> simp at h
